@@ -110,11 +110,11 @@ class ProjectorModel:
                 return "self"
         raise AnalysisError(RULE, f"initial value of {attr} not understood: `{norm(v)}`")
 
-    def run_method(self, name: str, hermitian: bool, rep: Report | None = None, depth=0, real=frozenset()):
+    def run_method(self, name: str, hermitian: bool, rep: Report | None = None, depth=0, real=frozenset(), preset: bool = False):
         """Abstractly run an operator-returning method on the base object (R, L).
         ``real``: which of the atoms R, L are real arrays.  Returns the resulting pair."""
         self.real = real = frozenset(real)
-        key = (name, hermitian, real)
+        key = (name, hermitian, real, preset)
         if key in self._memo:
             return self._memo[key]
         if depth > 4:
@@ -131,6 +131,12 @@ class ProjectorModel:
             "hermitian": hermitian,
             "objs": {},
         }
+        if preset:
+            # the other relatives of the object have been built before (and are right): what the method does with them is checked
+            own = [k for k, o_ in CACHE_OP.items() if METHOD_OP.get(name) == o_]
+            for k in CACHE_OP:
+                if k not in own and state["caches"][k] is None:
+                    state["caches"][k] = self._ideal(CACHE_OP[k], (R, L))
         result = self._run_block(f.body, state, rep, f, depth)
         if result is None:
             raise AnalysisError(RULE, f"{name}: no return value found")
@@ -397,6 +403,9 @@ def rule_projector(rep: Report, repo: Repo):
                                    [frozenset(), frozenset({"R"}), frozenset({"L"}), frozenset({"R", "L"})])
             for real in modes:
                 m._memo.clear()
+                # second run from a state in which the object's other relatives are already cached (history dependence of the links)
+                m.run_method(meth, hermitian, rep, real=real, preset=True)
+                m._memo.clear()
                 pair = m.run_method(meth, hermitian, rep, real=real)
                 m.real = real
                 base = (ld.atom("R"), ld.atom("R") if hermitian else ld.atom("L"))
@@ -557,6 +566,16 @@ def _operator_to_blockseries(rep: Report, repo: Repo, R: str):
                         if o.kind != "return":
                             continue
                         v = o.value
+                        if norm(v) == "zero":
+                            # the absent-element shortcut: only when the operator's own element at these orders is `zero`
+                            from .sem import canon as _canon6
+                            absent = any(norm(_canon6(t)) == "operator[index[2:]] is zero" and p for t, p in o.conds)
+                            if not absent:
+                                bad.add(("operator_to_BlockSeries::op_eval returns `zero` only for an absent element of the operator",
+                                         f"block ({a}, {b}), implicit={implicit}: `zero` is returned under "
+                                         + "; ".join(f"{'' if p else 'not '}{norm(t)[:50]}" for t, p in o.conds if _const_eval(t, sub) is None)
+                                         + " -- the block L_i^H A R_j of a present element is dropped", o.node))
+                            continue
                         if isinstance(v, ast.Call) and call_name(v) == "_convert_if_zero" and v.args:
                             v = v.args[0]
                         if not (isinstance(v, ast.BinOp) and isinstance(v.op, ast.MatMult)):
@@ -593,6 +612,8 @@ def _operator_to_blockseries(rep: Report, repo: Repo, R: str):
         rep.fail(R, key, detail, loc(node))
     if not any("returns L_" in k for k, _d, _n in bad):
         rep.ok(R, "operator_to_BlockSeries::op_eval returns L_{index[0]}^H . A . R_{index[1]}", f"{n_proj} projected returns on the index grid", loc(ev))
+    if not any("returns `zero` only" in k for k, _d, _n in bad):
+        rep.ok(R, "operator_to_BlockSeries::op_eval returns `zero` only for an absent element of the operator", "", loc(ev))
     if not any("wraps only" in k for k, _d, _n in bad):
         rep.ok(R, "operator_to_BlockSeries::op_eval wraps only the implicit (last, last) block as LinearOperator",
                "evaluated for implicit in {False, True}, 2 and 3 blocks, every (i, j)", loc(ev))
